@@ -398,6 +398,16 @@ func (env *Env) evalCall(c *ast.CallExpr) *Val {
 			return boolVal(false)
 		}
 	}
+	ret := env.evalCallN(c)
+	if len(ret) != 1 {
+		env.fail(c, "callee does not return a single value on this path")
+	}
+	return ret[0]
+}
+
+// evalCallN evaluates a call of a function of the module by running its body; it returns all results.
+func (env *Env) evalCallN(c *ast.CallExpr) []*Val {
+	info := env.Pkg.TypesInfo
 	fn, _ := typeutil.Callee(info, c).(*types.Func)
 	if fn == nil {
 		env.fail(c, "dynamic call")
@@ -439,7 +449,11 @@ func (env *Env) evalCall(c *ast.CallExpr) *Val {
 	for _, fld := range fi.Decl.Type.Params.List {
 		for _, nm := range fld.Names {
 			if i < len(c.Args) {
-				ce.Vars[fi.Pkg.TypesInfo.Defs[nm]] = env.eval(c.Args[i])
+				// an argument outside the domain (a context, a reader) stays unbound: the call fails only if
+				// the callee's path uses it
+				if v, err := env.Eval(c.Args[i]); err == nil && v != nil {
+					ce.Vars[fi.Pkg.TypesInfo.Defs[nm]] = v
+				}
 			}
 			i++
 		}
@@ -459,15 +473,21 @@ func (env *Env) evalCall(c *ast.CallExpr) *Val {
 		}
 	}
 	ret, done := ce.execBlock(fi.Decl.Body.List)
-	if done && len(ret) == 0 && len(named) == 1 {
-		if v, ok := ce.Vars[named[0]]; ok {
-			return v
+	if done && len(ret) == 0 && len(named) > 0 {
+		var vals []*Val
+		for _, o := range named {
+			v, ok := ce.Vars[o]
+			if !ok {
+				env.fail(c, "callee "+fi.Key+": named result without a value")
+			}
+			vals = append(vals, v)
 		}
+		return vals
 	}
-	if !done || len(ret) != 1 {
-		env.fail(c, "callee "+fi.Key+" does not return a single value on this path")
+	if !done || len(ret) == 0 {
+		env.fail(c, "callee "+fi.Key+" does not return a value on this path")
 	}
-	return ret[0]
+	return ret
 }
 
 // execBlock interprets a statement list of the supported fragment (if / return / simple assignment).
@@ -521,6 +541,15 @@ func (env *Env) execBlock(list []ast.Stmt) ([]*Val, bool) {
 						}
 						env.assignTo(x.Lhs[0], v)
 						env.assignTo(x.Lhs[1], boolVal(present))
+						continue
+					}
+				}
+				if c, ok := ast.Unparen(x.Rhs[0]).(*ast.CallExpr); ok && len(x.Rhs) == 1 {
+					// a function of the module with several results: run its body
+					if vals := env.evalCallN(c); len(vals) == len(x.Lhs) {
+						for i, l := range x.Lhs {
+							env.assignTo(l, vals[i])
+						}
 						continue
 					}
 				}
@@ -646,6 +675,12 @@ func (env *Env) assignTo(l ast.Expr, v *Val) (ok bool) {
 		}
 		if base.Fields != nil {
 			base.Fields[lx.Sel.Name] = v
+			return true
+		}
+	case *ast.IndexExpr:
+		// an element the hooks model as one value (dirs[i]): the element takes the value
+		if ev := env.eval(lx); ev != nil && v != nil && ev.Fields != nil {
+			*ev = *v
 			return true
 		}
 	case *ast.StarExpr:
